@@ -333,6 +333,10 @@ class OperandNode(ASTNode):
             value = self.value
             if value.startswith('"') and value.endswith('"'):
                 value = value[1:-1]
+            # the text becomes a python string literal: keep backslashes and
+            # line ends from being read as python escapes / ends of the line
+            value = value.replace('\\', '\\\\').replace(
+                '\n', '\\n').replace('\r', '\\r')
             value = value.replace('""', r'\"')
             return f'"{value}"'
 
